@@ -155,12 +155,19 @@ def mc_script_to_vsim(hist, cfg, rnd):
                 secs = [[int(s[0]), float(s[1])] for s in o["secs"]]
                 # turn part of the local deposit into secondaries below the production cut (they must be
                 # cut by InteractionApplier and deposited: 1/4 MeV, + 2mc^2 = 1 MeV for a positron)
+                # (a track that dies with ONLY sub-cut secondaries leaves a stale, non-empty secondary span in
+                # its vacated slot -- the history a seeded mutation of ProcessSecondaries needed -- so that
+                # case is produced often)
                 r = rnd.random()
-                if dep >= 1 and r < 0.35:
+                only_cut_death = (not o["alive"]) and not secs
+                if dep >= 1 and (r < 0.35 or (only_cut_death and r < 0.75)):
                     cut = [rnd.choice([0, 1]), 0.25]
                     dep -= 0.25
                     secs.insert(rnd.randrange(len(secs) + 1), cut)
-                elif dep >= 2 and r < 0.5:
+                    if dep >= 1 and rnd.random() < 0.3:
+                        dep -= 0.25
+                        secs.insert(rnd.randrange(len(secs) + 1), [rnd.choice([0, 1]), 0.25])
+                elif dep >= 2 and r < 0.85:
                     dep -= 1.25
                     secs.insert(rnd.randrange(len(secs) + 1), [2, 0.25])
                 tracks.setdefault(str(o["tid"]), []).append({"alive": bool(o["alive"]), "E1": float(o["E1"]),
@@ -210,7 +217,7 @@ def compare_impl(trace_path, pred):
     return drift
 
 
-def replay(ctx, cfgs, nsim, prefixes, depth=60):
+def replay(ctx, cfgs, nsim, prefixes, depth=60, per_cfg=150):
     """TLC-simulated behaviours of CoreLoopMC -> scripted physics on the real Stepper -> CoreLoopTrace."""
     import random
     vlib.build(["vsim"])
@@ -224,12 +231,20 @@ def replay(ctx, cfgs, nsim, prefixes, depth=60):
         if r.violated:
             ctx.violation("design model CoreLoopMC/%s violates %s in simulation" % (cname, r.violated_names()), tags={"design": cname})
         seen = set()
+        ok_scripts, err_scripts = [], []
         for m in re.finditer(r'<<"SCRIPT", "(.*)">>', r.out):
             txt = m.group(1).replace('\\"', '"')
             if txt in seen:
                 continue
             seen.add(txt)
-            scripts.append((cname, consts, json.loads(txt)))
+            hist = json.loads(txt)
+            (err_scripts if any(rec.get("err") for rec in hist) else ok_scripts).append(hist)
+        # longest behaviours first (more interleavings of deaths, vacancies and secondaries); capacity-error
+        # behaviours are numerous and short: keep a fifth of the budget for them
+        ok_scripts.sort(key=len, reverse=True)
+        rnd.shuffle(err_scripts)
+        keep = ok_scripts[:max(1, per_cfg * 4 // 5)] + err_scripts[:max(1, per_cfg // 5)]
+        scripts += [(cname, consts, h) for h in keep]
     if not scripts:
         raise vlib.Broken("no replay scripts generated")
     outs, preds, paths = [], [], []
@@ -262,6 +277,7 @@ def replay(ctx, cfgs, nsim, prefixes, depth=60):
         jobs.append(dict(module="CoreLoopTrace", cfg="CoreLoopTrace", workers=1, env={"TRACE": path}, timeout=3000, heap="6g"))
     results = vlib.tlc_parallel(jobs, maxpar=8)
     tot = {"runs": 0, "steps": 0, "iters": 0, "tracks": 0, "errors": 0, "inplace": 0, "delivered": 0}
+    offscript = []
     for gi, (g, r) in enumerate(zip(groups, results)):
         m = re.search(r'<<"SUMMARY", "(.*)">>', r.out)
         if r.code != 0 or not m:
@@ -279,7 +295,7 @@ def replay(ctx, cfgs, nsim, prefixes, depth=60):
                 is_drift = clause.startswith("DRIFT")
                 desc = "scripted replay: clause %s at record %d (script %s)" % (clause, line, paths[ci] if ci is not None else "?")
                 if is_drift:
-                    tot.setdefault("drift", []).append(desc)
+                    offscript.append(desc)
                 else:
                     ctx.violation(desc, tags={"clause": clause, "replay": True},
                                   files=[files[gi]] + ([paths[ci], outs[ci]] if ci is not None else []))
@@ -288,6 +304,8 @@ def replay(ctx, cfgs, nsim, prefixes, depth=60):
         d = compare_impl(out, preds[i])
         if d:
             drifts.append({"script": paths[i], "drift": d[:3]})
+    tot["offscript"] = len(offscript)
+    tot["offscript_samples"] = offscript[:3]
     tot["impl_drift_runs"] = len(drifts)
     tot["impl_drift_samples"] = drifts[:3]
     tot["scripts"] = len(scripts)
